@@ -70,6 +70,8 @@ loom::thread_local! {
     static TL1: TlVal = TlVal::new(1);
 }
 pub static LZ2_LIVE: AtomicUsize = AtomicUsize::new(0);
+pub static LZ2_INIT: AtomicUsize = AtomicUsize::new(0);
+pub const LZ_TWICE: &str = "lazy static initialised twice in one execution (its initialiser contains a scheduling point)";
 pub struct LzSlow {
     cell: loom::cell::UnsafeCell<usize>,
 }
@@ -79,6 +81,7 @@ impl LzSlow {
     /// it, one value wins, the other is discarded; every thread must get the winner, ordered after ITS initialisation
     fn new() -> LzSlow {
         LZ2_LIVE.fetch_add(1, SeqCst);
+        LZ2_INIT.fetch_add(1, SeqCst);
         let cell = loom::cell::UnsafeCell::new(0);
         loom::thread::yield_now();
         cell.with_mut(|p| unsafe { *p = 7 });
@@ -210,6 +213,11 @@ pub fn run_loom(p: &StProg, iter_cap: usize) -> SRes {
             if e.len() > 20 {
                 return;
             }
+            // "initialised at most once per execution" also holds for an initialiser that can be pre-empted
+            let inits = LZ2_INIT.swap(0, SeqCst);
+            if inits > 1 && !e.iter().any(|x| x.starts_with(LZ_TWICE)) {
+                e.push(format!("{}: {} initialisations in iteration {}", LZ_TWICE, inits, it));
+            }
             if LZ2_LIVE.load(SeqCst) != 0 {
                 e.push(format!("iteration {}: {} values of the lazy static with the slow initialiser are still alive at the end of the iteration", it, LZ2_LIVE.load(SeqCst)));
                 LZ2_LIVE.store(0, SeqCst);
@@ -232,6 +240,7 @@ pub fn run_loom(p: &StProg, iter_cap: usize) -> SRes {
     }
     let (e2, i2, ev2) = (errs.clone(), iters.clone(), events.clone());
     SLOW_DROP.store(p.slow_drop, SeqCst);
+    LZ2_INIT.store(0, SeqCst);
     let res = std::panic::catch_unwind(std::panic::AssertUnwindSafe(|| {
         let mut b = loom::model::Builder::new();
         b.max_branches = 5000;
@@ -375,7 +384,12 @@ pub fn judge(p: &StProg, rec: &mut Rec, tier: u8) {
             }
         }
     }
-    for e in r.errors.iter().take(3) {
+    // the double initialisation is reported once per program with its own signature (a known finding), the other
+    // observations separately
+    for e in r.errors.iter().filter(|e| e.starts_with(LZ_TWICE)).take(1) {
+        rec.v("static_semantics", "lazy_static_init_twice_when_initialiser_is_preempted", e.clone());
+    }
+    for e in r.errors.iter().filter(|e| !e.starts_with(LZ_TWICE)).take(3) {
         rec.v("static_semantics", "", e.clone());
     }
     rec.nontrivial = p.threads.iter().flatten().any(|o| !matches!(o, StOp::AStore | StOp::ALoad));
